@@ -207,7 +207,11 @@ fn run_seq(prop: &str, input: &[u8], seq: &[Op], st: &mut Stats) {
                 }
                 if prop == "C15" {
                     st.validated += 1;
-                    for (k, (got, want)) in outs.iter().zip(&refs).enumerate() {
+                    // the reference cursor defines successful reads; what a *failed* read leaves
+                    // behind is not specified, so the comparison with it stops at the first failure
+                    // (the three implementations must still agree with each other after it)
+                    let defined = refs.iter().position(|r| r.is_none()).unwrap_or(refs.len());
+                    for (k, (got, want)) in outs.iter().zip(&refs).enumerate().take(defined + 1) {
                         let ok = match want {
                             None => got == "Err",
                             Some(v) if v == "z?" => true,
@@ -222,7 +226,7 @@ fn run_seq(prop: &str, input: &[u8], seq: &[Op], st: &mut Stats) {
                             return;
                         }
                     }
-                    if *rest != input.len() - rp && !seq.contains(&Op::Compressed) {
+                    if defined == refs.len() && *rest != input.len() - rp && !seq.contains(&Op::Compressed) {
                         st.violate(
                             format!("C15 source impl={} end-of-input-at-different-point", names[w]),
                             key.clone(),
